@@ -309,6 +309,40 @@ func (s *Schema) CoerceVariables(decls []VarDecl, vars *Value) (map[string]*Valu
 	return out, issues
 }
 
+// CoerceOpVariables is CoerceVariableValues for a parsed operation (defaults already parsed).
+func (s *Schema) CoerceOpVariables(op *Op, vars *Value) (map[string]*Value, []Issue, error) {
+	out := map[string]*Value{}
+	var issues []Issue
+	for i := range op.Vars {
+		d := &op.Vars[i]
+		root := Path{{Name: d.Name}}
+		var v *Value
+		if vars != nil {
+			v = vars.Get(d.Name)
+		}
+		if v == nil && d.Default != nil {
+			dv, _, err := s.CoerceLiteral(d.Type, d.Default, nil)
+			if err != nil {
+				return nil, nil, fmt.Errorf("default of $%s: %w", d.Name, err)
+			}
+			out[d.Name] = dv
+			continue
+		}
+		if v == nil {
+			if d.Type.NonNull {
+				issues = append(issues, Issue{Path: root, Kind: IssMissingVariable, Type: d.Type.String(), Got: "<absent>"})
+			}
+			continue
+		}
+		cv, is := s.CoerceJSON(d.Type, v, root)
+		issues = append(issues, is...)
+		if len(is) == 0 {
+			out[d.Name] = cv
+		}
+	}
+	return out, issues, nil
+}
+
 // DefaultValue coerces a constant literal default (schema or variable default).
 func (s *Schema) DefaultValue(t *Type, literal string) (*Value, error) {
 	lit, err := ParseLiteral(literal, LexOpts{})
